@@ -457,6 +457,9 @@ func (e *dbcExec) finding(sig, detail string) {
 
 func (e *dbcExec) Do(line string) string {
 	f := fields(line)
+	if len(f) == 3 && f[1] == "scan" {
+		return dbcScanDo(e, f[2])
+	}
 	if len(f) < 4 || (f[2] != "0" && f[2] != "1") {
 		return "bad-op"
 	}
@@ -529,6 +532,11 @@ func (dbcStream) Tag(lines, outs []string) (bool, []string) {
 	tags := []string{}
 	for i, l := range lines {
 		f := fields(l)
+		if len(f) == 3 && f[1] == "scan" {
+			tags = append(tags, "scan", "scan:last-"+outs[i][strings.LastIndex(outs[i], ",")+1:][:3])
+			nt = true
+			continue
+		}
 		if len(f) < 4 {
 			continue
 		}
